@@ -241,13 +241,9 @@ func (pr *ProfileReader) readTagTable(tagTable *TagTable) error {
 	}
 
 	tagDataOffset := tagTableOffset + 4 + (tagCount * 12)
-	tagData := make([]byte, endOfTagData-tagDataOffset)
-	bytesRead, err := pr.reader.Read(tagData)
+	tagData, err := binary.ReadBytes(pr.reader, endOfTagData-tagDataOffset)
 	if err != nil {
-		return err
-	}
-	if bytesRead < len(tagData) {
-		return fmt.Errorf("expected %d bytes of tag data but only got %d", len(tagData), bytesRead)
+		return fmt.Errorf("expected %d bytes of tag data: %v", endOfTagData-tagDataOffset, err)
 	}
 
 	for sig, entry := range tagIndex {
